@@ -423,9 +423,13 @@ def judge_validate(scn, res, names, stdin_text, implicit_stdin):
         code2, verdict2 = expect_validate_files({}, ["-"], stdin_text)
         exit_code = code2
         verdict = verdict + verdict2
-    if res.exit != exit_code:
+    if (res.exit == 0) != (exit_code == 0):
+        # the property speaks of "exits 0 exactly when every document
+        # loads"; which non-zero value is used is not part of it
         out.append("validate:exit-status-%s-expected-%s" % (res.exit,
                                                             exit_code))
+        return out
+    if res.exit != exit_code:
         return out
     if "-q" in scn["opts"]:
         if res.stdout.strip():
@@ -1027,6 +1031,65 @@ def gen_merge16(rng):
         names = [new_name] + names[1:]
         scn.update(files=files, names=names, condense=True)
     return scn
+
+
+class _Undefined(Exception):
+    """The little merge model below does not cover this pair."""
+
+
+def simple_merge(lhs, rhs):
+    """
+    Independent model of yaml-merge's DEFAULT policies on plain data: hashes
+    merge deeply, arrays (of scalars or of hashes) are concatenated, a scalar
+    on the right replaces a scalar on the left.  Anything else (type clashes,
+    nulls against containers) is left to the library-differential oracle.
+    """
+    if isinstance(lhs, dict) and isinstance(rhs, dict):
+        out = dict(lhs)
+        for key, val in rhs.items():
+            out[key] = simple_merge(lhs[key], val) if key in lhs else val
+        return out
+    if isinstance(lhs, list) and isinstance(rhs, list):
+        return list(lhs) + list(rhs)
+    if isinstance(lhs, (dict, list)) or isinstance(rhs, (dict, list)):
+        raise _Undefined()
+    if lhs is None or rhs is None:
+        raise _Undefined()
+    return rhs
+
+
+def independent_merge(scn, texts):
+    """Expected plain data under default options, or None if not covered."""
+    opts = scn["opts"]
+    if any(o in opts for o in ("-A", "-H", "-O", "-c", "-m", "-a", "-E",
+                               "-M")) or scn.get("multidoc") \
+            or scn.get("condense"):
+        return None
+    datas = []
+    for text in texts:
+        data, okay = strict_load(text)
+        if not okay or not isinstance(data, (dict, list)):
+            return None
+        if snapshot.anchors(data) or _contains_set(data):
+            return None
+        datas.append(plain(data))
+    try:
+        merged = datas[0]
+        for rhs in datas[1:]:
+            merged = simple_merge(merged, rhs)
+    except _Undefined:
+        return None
+    return merged
+
+
+def _contains_set(node):
+    if isinstance(node, CommentedSet):
+        return True
+    if isinstance(node, dict):
+        return any(_contains_set(v) for v in node.values())
+    if isinstance(node, list):
+        return any(_contains_set(v) for v in node)
+    return False
 
 
 def merge_args(opts, output=None):
@@ -1636,15 +1699,41 @@ def judge_run(scn, chan, recipe, ctx, res, cache):
                 cache[key] = {"exit": "library-raised",
                               "error": type(ex).__name__}
         exp = cache[key]
+        if ctx["output"]:
+            text = res.fs.get(ctx["output"], b"").decode("utf-8", "replace")
+        else:
+            text = res.stdout
+        # an oracle that shares no code with the Merger, for the default
+        # policies on plain documents
+        if "independent" not in cache:
+            cache["independent"] = independent_merge(scn, ctx["texts"])
+        model = cache["independent"]
+        if model is not None:
+            if res.exit != 0:
+                out.append("merge:exit-%s-although-the-default-merge-is-"
+                           "well-defined" % res.exit)
+                return out
+            try:
+                try:
+                    got = json.loads(text)
+                except ValueError:
+                    data, okay = strict_load(text)
+                    if not okay:
+                        raise ValueError("unloadable") from None
+                    got = plain(data)
+                if json.loads(json.dumps(got)) != \
+                        json.loads(json.dumps(model)):
+                    out.append("merge:output-differs-from-independent-"
+                               "default-merge-model")
+            except ValueError:
+                out.append("merge:output-not-loadable")
+            if out:
+                return out
         if exp["exit"] == "library-raised":
             if res.exit == 0:
                 out.append("merge:exit-0-although-library-raised-%s"
                            % exp["error"])
             return out
-        if ctx["output"]:
-            text = res.fs.get(ctx["output"], b"").decode("utf-8", "replace")
-        else:
-            text = res.stdout
         out += judge_merge(scn, exp, res, text)
     elif tool == "yaml-set":
         if "set" not in cache:
